@@ -13,14 +13,14 @@ LEVEL = "proof"
 PROPS = "C02.v"
 
 
-def proofs(ctx, props):
+def proofs(ctx, props, deps=("Machine/Chunk.vo",)):
     """build the property file, audit Print Assumptions; returns True if everything is closed"""
-    rc, out = common.coq_make(["Machine/Chunk.vo"], timeout=900)
+    rc, out = common.coq_make(list(deps), timeout=900)
     path = os.path.join(common.COQ, "Props", props)
     n_thm = len(re.findall(r"^Print Assumptions", open(path).read(), re.M))
     ctx.obligations += n_thm
     if rc != 0:
-        ctx.violation("proof-build", "coq/Machine/Chunk.v no longer builds", {"broken": "Machine/Chunk.v", "output": out[-1500:]}, found_input=False)
+        ctx.violation("proof-build", "the development under %s no longer builds" % props, {"broken": " ".join(deps), "output": out[-1500:]}, found_input=False)
         return False
     rc, out = common.coqc_file(path, timeout=600)
     blocks = common.parse_assumptions(out)
